@@ -308,3 +308,11 @@ func Leaves(e Expr) int {
 	}
 	return 1
 }
+
+// NumLeafInt returns a leaf of the signed-integer class (literal, injected, local).
+func (g *G) NumLeafInt() Expr {
+	if g.R.Intn(3) == 0 {
+		return g.intLit()
+	}
+	return intLeaves[g.R.Intn(len(intLeaves))]
+}
